@@ -45,6 +45,7 @@ TRUSTED_BASE = [
     'harness: wrappers recording third-party kernel answers, float.as_integer_ratio export, driver parser, canonicalisation rules',
     'third-party kernels (scikit-learn, statsmodels, numpy, pandas) are parameters/checked oracles of the model, not verified',
     'binary64 arithmetic is outside the theorems (exact rationals); validated at boundaries by the harness',
+    'source tie (C17, C18): harness/py2lean.py (Python subset -> Lean) and the meaning it gives that subset in lean/Ampy/Gen/Prelude.lean',
 ]
 
 
@@ -167,13 +168,26 @@ def lean_build(targets):
     return r.returncode == 0, (r.stdout + r.stderr)[-4000:]
 
 
+# Source tie (DESIGN.md 11.10): functions whose Lean text is regenerated from /repo's source on every run, per property.
+SOURCE_TIE = {
+    'C17': ['significant_cloud'],
+    'C18': ['okta2code', 'height2code', 'perc2okta'],
+}
+_SRC_OFF = set()   # properties whose source-level theorem file is left out of this run (a function is untranslatable)
+
+
 def theorem_files(prop: str):
-    """Files holding the property's theorems: Props/Cxx.lean, and Props/Monitor.lean (soundness of the run-time
-    monitor's spec predicates) when it declares theorems for this property."""
+    """Files holding the property's theorems: Props/Cxx.lean, Props/CxxSrc.lean (the same statements about the
+    definitions regenerated from the source, when every function of the property could be translated), and
+    Props/Monitor.lean (soundness of the run-time monitor's spec predicates) when it declares theorems for this
+    property."""
     out = []
     f = LEAN / 'Ampy' / 'Props' / f'{prop}.lean'
     if f.exists():
         out.append(f)
+    g = LEAN / 'Ampy' / 'Props' / f'{prop}Src.lean'
+    if g.exists() and prop not in _SRC_OFF:
+        out.append(g)
     m = LEAN / 'Ampy' / 'Props' / 'Monitor.lean'
     if m.exists() and re.search(rf'^theorem\s+{prop}_\w+', m.read_text(), flags=re.M):
         out.append(m)
@@ -256,6 +270,25 @@ def audit_axioms(prop: str):
     return res, bad
 
 
+@contextlib.contextmanager
+def lean_lock():
+    """Serialise everything that writes into the Lake project (regeneration of Ampy/Gen, lake build, audit)."""
+    import fcntl
+    (LEAN / '.lake').mkdir(exist_ok=True)
+    with open(LEAN / '.lake' / 'verif.lock', 'w') as fh:
+        fcntl.flock(fh, fcntl.LOCK_EX)
+        try:
+            yield
+        finally:
+            fcntl.flock(fh, fcntl.LOCK_UN)
+
+
+def regenerate_sources():
+    """Run the source translator on the tree under test; returns py2lean.generate()'s report."""
+    from . import py2lean
+    return py2lean.generate(REPO / 'src', LEAN / 'Ampy' / 'Gen')
+
+
 class Driver:
     """Batch access to the compiled Lean model driver (one request line -> one answer line)."""
 
@@ -319,6 +352,12 @@ class Check:
         self.rule = ''
         self.explanation = ''
         self.driver = None
+        self.escalate = False     # explore at the thorough size (set when the source tie is lost or broken)
+
+    @property
+    def size_tier(self):
+        """Tier that sizes the exploration: thorough when the source tie was lost or broke (escalated search)."""
+        return 'thorough' if self.escalate else self.tier
 
     # -- bookkeeping ------------------------------------------------------------------------
     def count(self, key, n=1):
@@ -341,12 +380,47 @@ class Check:
 
     # -- Lean ---------------------------------------------------------------------------------
     def prove(self):
-        """Build the property's proof target + driver, audit axioms and forbidden constructs."""
+        """Regenerate the translated sources, build the property's proof target + driver, audit axioms and
+        forbidden constructs."""
+        with lean_lock():
+            return self._prove()
+
+    def _prove(self):
+        fns = SOURCE_TIE.get(self.prop, [])
+        tie = {}
+        if fns:
+            rep = regenerate_sources()
+            for fn in fns:
+                r = rep[fn]
+                tie[fn] = ('translated from the current source (sha ' + r['sha'] + '), equality with the model proved'
+                           ) if r['ok'] else 'NOT TRANSLATABLE: ' + str(r['reason'])
+                if not r['ok']:
+                    _SRC_OFF.add(self.prop)
+                    self.escalate = True
+                    self.notes.append(f'source tie lost for {fn} (outside the translated subset: {r["reason"]}); '
+                                      'this run falls back to the behavioural correspondence, explored at the thorough size')
+            self.extra['source_tie'] = tie
         ok, log = lean_build(theorem_modules(self.prop) + ['ampydrv'])
         names = theorem_names(self.prop)
         self.obligations = len(names)
         if not ok:
-            self.proof_problems.append('lake build failed: ' + log[-1500:])
+            src_mod = f'Ampy.Props.{self.prop}Src'
+            if fns and self.prop not in _SRC_OFF and src_mod in theorem_modules(self.prop):
+                # which part broke: the hand-written theorems, or the equality of the regenerated source with the model?
+                _SRC_OFF.add(self.prop)
+                ok2, log2 = lean_build(theorem_modules(self.prop) + ['ampydrv'])
+                _SRC_OFF.discard(self.prop)
+                if ok2:
+                    self.proof_problems.append(
+                        'source tie: the definitions regenerated from the current source are no longer proved equal to '
+                        f'the model ({", ".join(fns)}; theorems of Ampy/GenEq and Props/{self.prop}Src.lean): ' + log[-1200:])
+                    self.escalate = True
+                    for fn in fns:
+                        tie[fn] = 'translated, but the equality with the model NO LONGER CHECKS'
+                else:
+                    self.proof_problems.append('lake build failed: ' + log2[-1500:])
+            else:
+                self.proof_problems.append('lake build failed: ' + log[-1500:])
             self.discharged = 0
         else:
             self.axioms, bad = audit_axioms(self.prop)
